@@ -107,7 +107,7 @@ package fatigue
 //@ ifacemethod FatigueFunction.BlankParams
 //@   ensures fatMadeBy(result, self)
 //@ func parseFatigueFuncParams
-//@   property C17 C09 C07
+//@   property C17 C09 C07 C01
 //@   ensures [the_functions_own_parameter_object] fatMadeBy(result, fun)
 
 // ---- no state shared between requests (C09): every request decodes its function parameters into a new object
@@ -131,15 +131,19 @@ package fatigue
 //@ wire ConstFatigueParams
 //@   property C01 C17 C20
 //@   json Value=value
+//@   gotypes Value=float64
 //@ wire ExpFatigueParams
 //@   property C01 C17 C20
 //@   json Alpha=alpha Multiplier=multiplier QueryNumber=queryNumber
+//@   gotypes Alpha=float64 Multiplier=float64 QueryNumber=int64
 //@ wire FatigueResult
 //@   property C01 C07 C09 C17 C20
 //@   json EffectiveFatigueRatio=effectiveFatigueRatio ConsideredAlternatives=consideredAlternatives NotConsideredAlternatives=notConsideredAlternatives
+//@   gotypes EffectiveFatigueRatio=float64 ConsideredAlternatives=[]model.AlternativeWithCriteria NotConsideredAlternatives=[]model.AlternativeWithCriteria
 //@ wire FatigueParams
 //@   property C01 C07 C09 C17 C20
 //@   json Function=function Params=params RandomSeed=randomSeed
+//@   gotypes Function=string Params=interface{} RandomSeed=int64
 
 // ---- registered names (what a request must say to select this object; what error messages list)
 //@ func (*ConstFatigueFunction).Name
@@ -158,11 +162,11 @@ package fatigue
 //@ ifacemethod FatigueFunction.Name
 //@   ensures result == fatName(self)
 //@ func parseProps
-//@   property C17 C20 C07 C09
+//@   property C17 C20 C07 C09 C01
 //@   ensures [as_requested] fresh(result) && result.Function == (decoded_has(*props, "Function") ? decoded_str(*props, "Function") : "")
 //@             && result.RandomSeed == (decoded_has(*props, "RandomSeed") ? decoded_int(*props, "RandomSeed") : 0)
 //@ func (*Fatigue).getFatigueFunction
-//@   property C17 C20 C07 C09
+//@   property C17 C20 C07 C09 C01
 //@   panics_iff [unknown_function] !(exists k int :: 0 <= k && k < len(f.functions) && fatName(f.functions[k]) == params.Function)
 //@   ensures [first_with_that_name] exists k int :: 0 <= k && k < len(f.functions) && result == f.functions[k] && fatName(result) == params.Function
 //@             && forall j int :: 0 <= j && j < k ==> fatName(f.functions[j]) != params.Function
